@@ -10,3 +10,18 @@
 pub fn fp_op(field: &str, op: &str, x: u128, y: u128) -> Option<u128> {
     crate::fp::verif_fp_op(field, op, x, y)
 }
+
+/// Draw `n1` elements of `Field64` from a `Prng` over `stream`, convert the generator with
+/// `into_new_field` and draw `n2` elements of `Field255` (the field switch Poplar1 performs).
+#[cfg(all(feature = "crypto-dependencies", feature = "experimental"))]
+pub fn prng_switch_fields<S: rand::Rng>(
+    stream: S,
+    n1: usize,
+    n2: usize,
+) -> (Vec<crate::field::Field64>, Vec<crate::field::Field255>) {
+    let mut prng = crate::prng::Prng::<crate::field::Field64, S>::from_seed_stream(stream);
+    let first = (0..n1).map(|_| prng.get()).collect();
+    let mut prng = prng.into_new_field::<crate::field::Field255>();
+    let second = (0..n2).map(|_| prng.get()).collect();
+    (first, second)
+}
